@@ -188,16 +188,19 @@ def save (s : State) : State := { s with file := some (s.svcs.map (snapOf s)) }
 def normalizeOpts (o : SvcOptions) : SvcOptions :=
   { o with hosts := normalizeHosts o.hosts, prefixes := normalizePathPrefixes o.prefixes }
 
-/-- `Service.initialize`: error or whether a certificate manager exists -/
-def initService (o : SvcOptions) (env : Env) : Except Res Bool := do
-  let cm ←
-    if !o.tlsEnabled then pure false
-    else if !o.tlsCertPath.isEmpty && !o.tlsKeyPath.isEmpty then
-      (if env.certOk then pure true else throw Res.badCert)
-    else if o.hosts.any (·.contains cStar) then throw Res.acmeWildcard
-    else pure true
-  if !o.errorPagePath.isEmpty && !env.pagesOk then throw Res.badPages
-  pure cm
+/-- `createCertManager`: error, or whether a certificate manager exists -/
+def certManagerFor (o : SvcOptions) (env : Env) : Except Res Bool :=
+  if !o.tlsEnabled then .ok false
+  else if !o.tlsCertPath.isEmpty && !o.tlsKeyPath.isEmpty then
+    (if env.certOk then .ok true else .error .badCert)
+  else if o.hosts.any (·.contains cStar) then .error .acmeWildcard
+  else .ok true
+
+/-- `Service.initialize`: certificate manager first, then the error-page middleware -/
+def initService (o : SvcOptions) (env : Env) : Except Res Bool :=
+  match certManagerFor o env with
+  | .error e => .error e
+  | .ok cm => if !o.errorPagePath.isEmpty && !env.pagesOk then .error .badPages else .ok cm
 
 /-! ### commands -/
 
@@ -210,19 +213,30 @@ def disposeLb (s : State) (id : Nat) : State :=
 def updSvc (s : State) (name : Bytes) (f : Svc → Svc) : State :=
   { s with svcs := s.svcs.map fun v => if v.name = name then f v else v }
 
+/-- `UpdateLoadBalancer` -/
+def withLb (v : Svc) (slot : Slot) (id : Nat) : Svc :=
+  match slot with
+  | .active => { v with active := id }
+  | .rollout => { v with rollout := some id }
+
+/-- the load balancer `UpdateLoadBalancer` returns (nil for the active slot of a new service) -/
+def replacedLb (s : State) (v : Svc) (slot : Slot) : Option Nat :=
+  match slot with
+  | .active => if s.svcs.any (·.name = v.name) then some v.active else none
+  | .rollout => v.rollout
+
 /-- `deployTargetsIntoService` once the service object (`v`, not yet installed for a deploy;
     the installed one for a rollout deploy) exists -/
 def deployInto (s : State) (v : Svc) (slot : Slot) (targets : List Bytes) (env : Env) : State × Res :=
   if !targets.all validTarget then (s, .badTarget) else
-  let (s1, id) := newLb s targets
+  let s1 := (newLb s targets).1
+  let id := s.nextLb
   if !env.healthy then (disposeLb s1 id, .unhealthy) else
-  let (v', replaced) := match slot with
-    | .active => ({ v with active := id }, if s.svcs.any (·.name = v.name) then some v.active else none)
-    | .rollout => ({ v with rollout := some id }, v.rollout)
+  let v' := withLb v slot id
   -- installService: check + set under the write lock, snapshot whatever the outcome
   if conflict s1.svcs v'.name v'.opts then (save (disposeLb s1 id), .hostInUse) else
   let s2 := save { s1 with svcs := setSvc s1.svcs v' }
-  match replaced with
+  match replacedLb s v slot with
   | some r => (disposeLb s2 r, .ok)
   | none => (s2, .ok)
 
@@ -236,36 +250,55 @@ def setStateCtl (p : Pause) (st : PauseSt) (msg : Bytes) : Option Pause :=
     if p.hasChan then some { p with st := st, msg := msg, hasChan := false } else none
   else some { p with st := st, msg := msg }
 
-def restoreSvc (s : State) (sn : SvcSnap) : Except Res (State × Svc) := do
-  -- PauseController.UnmarshalJSON re-applies the state (fields are already set)
-  let p0 : Pause := ⟨sn.pause.1, sn.pause.2.1, sn.pause.2.2, false⟩
-  let p ← match sn.pause.1 with
-    | .running => (match setStateCtl p0 .running [] with | some p => pure p | none => throw Res.panic)
-    | .paused => pure (pauseCtl p0 sn.pause.2.2)
-    | .stopped => (match setStateCtl p0 .stopped sn.pause.2.1 with | some p => pure p | none => throw Res.panic)
-  if !sn.active.all validTarget then throw Res.badTarget
-  let (s1, a) := newLb s sn.active
-  let (s2, r) ← match sn.rollout with
-    | some ts => if ts.isEmpty then pure (s1, none) else
-        if !ts.all validTarget then throw Res.badTarget else
-        let (s2, r) := newLb s1 ts; pure (s2, some r)
-    | none => pure (s1, none)
-  let cm ← initService sn.opts ⟨true, true, true⟩
-  pure (s2, { name := sn.name, opts := sn.opts, topts := sn.topts, active := a, rollout := r,
-              pause := p, split := sn.split, certMgr := cm })
+/-- `PauseController.UnmarshalJSON`: the fields are set, then the state is re-applied;
+    `none` = close of a nil channel -/
+def restorePause (p : PauseSt × Bytes × Int) : Option Pause :=
+  let p0 : Pause := ⟨p.1, p.2.1, p.2.2, false⟩
+  match p.1 with
+  | .running => setStateCtl p0 .running []
+  | .paused => some (pauseCtl p0 p.2.2)
+  | .stopped => setStateCtl p0 .stopped p.2.1
+
+/-- `Service.UnmarshalJSON` -/
+def restoreSvc (s : State) (sn : SvcSnap) : Except Res (State × Svc) :=
+  match restorePause sn.pause with
+  | none => .error .panic
+  | some p =>
+    if !sn.active.all validTarget then .error .badTarget else
+    let s1 := (newLb s sn.active).1
+    let ro := sn.rollout.filter (fun ts => !ts.isEmpty)
+    if !(ro.getD []).all validTarget then .error .badTarget else
+    let s2 := match ro with
+      | some ts => (newLb s1 ts).1
+      | none => s1
+    let r := ro.map fun _ => s1.nextLb
+    match initService sn.opts ⟨true, true, true⟩ with
+    | .error e => .error e
+    | .ok cm =>
+      .ok (s2, { name := sn.name, opts := sn.opts, topts := sn.topts, active := s.nextLb, rollout := r,
+                 pause := p, split := sn.split, certMgr := cm })
+
+def restoreAll : State → List SvcSnap → Option State
+  | s, [] => some s
+  | s, sn :: rest =>
+    match restoreSvc s sn with
+    | .error _ => none
+    | .ok (s', v) => restoreAll { s' with svcs := setSvc s'.svcs v } rest
 
 /-- `RestoreLastSavedState` in a fresh process: any decode error leaves the router empty -/
 def restore (file : Option (List SvcSnap)) : State :=
   let empty : State := { State.init with file := file }
   match file with
   | none => empty
-  | some sns =>
-    let r : Except Res State := sns.foldlM (fun (s : State) sn => do
-      let (s', v) ← restoreSvc s sn
-      pure { s' with svcs := setSvc s'.svcs v }) empty
-    match r with
-    | .ok s => s
-    | .error _ => empty
+  | some sns => (restoreAll empty sns).getD empty
+
+/-- `findOrCreateService`: a copy of the installed object (sharing load balancers, pause and
+    rollout controllers) with the new options, or a fresh service -/
+def deployObj (s : State) (name : Bytes) (o : SvcOptions) (topts : TargetOptions) (cm : Bool) : Svc :=
+  match s.get name with
+  | some old => { old with opts := o, topts := topts, certMgr := cm }
+  | none => { name := name, opts := o, topts := topts, active := 0, rollout := none,
+              pause := Pause.init, split := none, certMgr := cm }
 
 def withSvc (s : State) (name : Bytes) (k : Svc → State × Res) : State × Res :=
   match s.get name with
@@ -277,12 +310,7 @@ def step (s : State) : Cmd → State × Res
     let o := normalizeOpts opts
     match initService o env with
     | .error e => (s, e)
-    | .ok cm =>
-      let v : Svc := match s.get name with
-        | some old => { old with opts := o, topts := topts, certMgr := cm }
-        | none => { name := name, opts := o, topts := topts, active := 0, rollout := none,
-                    pause := Pause.init, split := none, certMgr := cm }
-      deployInto s v .active targets env
+    | .ok cm => deployInto s (deployObj s name o topts cm) .active targets env
   | .rolloutDeploy name targets env =>
     match s.get name with
     | none => (s, .notFound)
